@@ -128,6 +128,47 @@ def gen_script(rng, comp="ctxs", explicit=None, nops=None):
     return "\t".join([comp, "1" if explicit else "0", str(repo)] + ops)
 
 
+def gen_systematic(rng, comp="ctxs"):
+    """one base history of successful operations over a repository without faults; every fault kind is injected at
+    every position, followed by the rest of the history (the later correct loads); both compile modes"""
+    repo = Repo(rng, pfault=0.0)
+    for e in repo.entries:
+        e["imps"] = [(n, r) for n, r in e["imps"] if n != "h" and (r == 0 or r in repo.revs.get(n, []))]
+    # two extra modules: e imports a module nobody has, f has a feature whose if-feature can be left unsatisfied
+    repo.entries.append(dict(name="e", rev=1, imps=[(repo.names[0], 0), ("h", 0)], feats=[], fault=0))
+    repo.entries.append(dict(name="f", rev=1, imps=[], feats=[("f1", []), ("f2", ["f1"])], fault=0))
+    repo.feats["e"] = []
+    repo.feats["f"] = [("f1", []), ("f2", ["f1"])]
+    ie, iff = len(repo.entries) - 2, len(repo.entries) - 1
+    good = [i for i in range(len(repo.entries) - 2)]
+    hist = []
+    for _ in range(rng.randrange(2, 6)):
+        i = rng.choice(good)
+        e = repo.entries[i]
+        r = rng.random()
+        if r < 0.6:
+            hist.append("P %d - %s" % (i, rng.choice(["~", "~", "*", "-"])))
+        elif r < 0.8:
+            hist.append("L %s %d %s" % (e["name"], rng.choice([0, e["rev"]]), rng.choice(["~", "*"])))
+        else:
+            hist.append("I %s %d ~" % (e["name"], e["rev"]))
+    out = []
+    for explicit in (0, 1):
+        for pos in range(len(hist) + 1):
+            faulty = ["P %d %d ~" % (rng.choice(good), k) for k in FAULTS]
+            faulty += ["P %d - ~" % ie, "P %d - f2" % iff, "P %d - f9" % rng.choice(good), "L h 0 ~", "L e 0 ~", "L f 1 f2"]
+            for fo in faulty:
+                ops = hist[:pos] + [fo] + hist[pos:]
+                if explicit:
+                    # compile after every operation of the base history (nothing pending when the fault strikes) or at the end
+                    if rng.random() < 0.5:
+                        ops = [x for o in hist[:pos] for x in (o, "C")] + [fo] + [x for o in hist[pos:] for x in (o, "C")]
+                    else:
+                        ops = ops + ["C"]
+                out.append("\t".join([comp, str(explicit), str(repo)] + ops))
+    return out
+
+
 # the scripts of the two defects DESIGN.md names and of the others found while building the slice
 WITNESS = {
     # failed load of a newer revision: nobody is the latest revision any more
@@ -289,6 +330,8 @@ class CtxScript(Comp):
 
     def gen(self, rng, tier, scale=1.0):
         L = list(WITNESS.values())
+        for _ in range(self.n(tier, 8, 200, scale)):
+            L += gen_systematic(rng)
         for _ in range(self.n(tier, 1500, 60000, scale)):
             L.append(gen_script(rng))
         return L
@@ -334,9 +377,42 @@ class CtxRestore:
 
     def gen(self, rng, tier, scale=1.0):
         L = [add_data_ops(rng, w) for w in WITNESS.values()]
+        for _ in range(int((150 if tier == "thorough" else 6) * scale)):
+            # every fault kind at every position; half of them without data trees (so that a stale tree, which is a
+            # known finding, does not hide what follows)
+            for w in gen_systematic(rng, "ctxo"):
+                L.append(add_data_ops(rng, w) if rng.random() < 0.5 else w)
         for _ in range(int((40000 if tier == "thorough" else 1200) * scale)):
             L.append(add_data_ops(rng, gen_script(rng)))
         return L
 
     def judge(self, line, out):
         return analyse(line, out, self.last_err or "")
+
+
+class CtxModelInv:
+    """model only (no driver): along every script, C09_failed_op_restores_partial is evaluated (a failing operation of a
+    quiescent state that keeps latest flags and feature bits must restore the observable: a failure here would
+    contradict the theorem), and a successful compiled operation of a quiescent state must give a quiescent state
+    (this closure is tested, not proved)"""
+    name = "ctx-model-inv"
+    driver = None
+    kinds = ["rel"]
+
+    def gen(self, rng, tier, scale=1.0):
+        L = [w.replace("ctxs\t", "ctxq\t", 1) for w in WITNESS.values()]
+        for _ in range(int((100 if tier == "thorough" else 4) * scale)):
+            L += gen_systematic(rng, "ctxq")
+        for _ in range(int((30000 if tier == "thorough" else 1500) * scale)):
+            L.append(gen_script(rng, "ctxq"))
+        return L
+
+    def run(self, lines):
+        import vlib
+        outs, _ = vlib.run_sharded(vlib.build_model("ctx"), lines, timeout=600)
+        return outs
+
+    def judge(self, line, out):
+        if "THM-VIOLATED" in out or "NOT-PRESERVED" in out or out.startswith("?") or "MODEL-" in out:
+            return (None, "model self-check: %s" % out[:300])
+        return None
